@@ -183,7 +183,10 @@ def run(prop, tier, seed, opts):
                    traces_validated_against_impl=len(results), evaluations=nrenders,
                    distinct_nontrivial=len({r.get("key") for r in results}),
                    rule="(plus TLC random walks of 24 operations) every operation history of length MaxLen over register / parse (discarded and kept) / render / render of a "
-                        "kept template / cache and debug toggles / GC / activity on a second engine that ends in a render; every render "
+                        "kept template / cache and debug toggles / GC / activity on a second (policy-less) engine that ends in a render; behaviours "
+                        "that start after a prepared prefix of registrations (10 pairs of sources that reach each other by include / extends / "
+                        "import / sandboxed include, x 2 sources on the second engine) followed by every sequence of 2 (3) renders or GCs over "
+                        "registered, array-loader and two-path file-system-loader names; every render "
                         "is compared with the pristine result of its key (same templates+configuration on a fresh engine in a fresh "
                         "process); all histories are non-trivial (>= 1 render after other activity)",
                    samples=samples, oracle_keys=len(keys), histories=len(results), failing=len(failing),
